@@ -93,7 +93,7 @@ func c18Which(R *vr.Result, id string, iface *Store, confs []c18Conf, n *int) (n
 }
 
 func TestVerifC18Reload(t *testing.T) {
-	R := vr.New("C18", "reload", "an in-process agent receives SIGHUP after its configuration file was replaced by (a) a good configuration with different base directory, default and HMAC keys, (b) documents that do not load (syntax error, unknown key, undefined default, two algorithms, id 0), (c) configurations whose directory fails the consistency check (empty, no admin, both extensions, foreign file, same base directory but the admin's parameter set removed), (d) a good configuration that drops a parameter set; after each reload the configuration actually served is identified from behaviour (where a newly added record lands, which default it names, which HMAC key verifies it; which users authenticate) and must be the complete new one after a good reload and the complete previous one otherwise - never a mixture; background clients run through all reloads and every request must be answered. Non-trivial: every reload; distinct by (previous configuration, reload kind)")
+	R := vr.New("C18", "reload", "an in-process agent receives SIGHUP after its configuration file was replaced by (a) a good configuration with different base directory, default and HMAC keys, (b) documents that do not load (syntax error, unknown key, undefined default, two algorithms, id 0), (c) configurations whose directory fails the consistency check (empty, no admin, both extensions, foreign file, same base directory but the admin's parameter set removed), (d) a good configuration that drops a parameter set; after each reload the configuration actually served is identified from behaviour (where a newly added record lands, which default it names, which HMAC key verifies it; which users authenticate) and must be the complete new one after a good reload and the complete previous one otherwise - never a mixture; the store path handed to the update hooks (hook event and the WHAWTY_AUTH_STORE seen by a real hook script) must never be a directory of a rejected reload; background clients run through all reloads and every request must be answered. Non-trivial: every reload; distinct by (previous configuration, reload kind)")
 	defer R.Write()
 	rng := R.Rand("c18r")
 	verifSetLogging(true)
@@ -120,13 +120,45 @@ func TestVerifC18Reload(t *testing.T) {
 	plant(A, []ovlUser{{Name: "root", Pw: "rootA", Admin: true, Set: 1}, {Name: "onlyA", Pw: "pwA", Set: 1}, {Name: "mix", Pw: "mixA", Set: 1}, {Name: "a3", Pw: "a3pw", Set: 3}})
 	plant(B, []ovlUser{{Name: "root", Pw: "rootB", Admin: true, Set: 2}, {Name: "onlyB", Pw: "pwB", Set: 2}, {Name: "mix", Pw: "mixB", Set: 1}, {Name: "b3", Pw: "b3pw", Set: 3}})
 	os.WriteFile(cfg, []byte(A.yaml()), 0600) //nolint:errcheck
-	ag, err := NewStore(cfg, "", "", "", "")
+	hooksDir := filepath.Join(root, "hooks")
+	hooksLog := filepath.Join(root, "hooks.log")
+	os.MkdirAll(hooksDir, 0700) //nolint:errcheck
+	c19Script(hooksDir, "rec", hooksLog, 0700, "")
+	ag, err := NewStore(cfg, "", "", "", hooksDir)
 	if err != nil {
 		R.Fatal = err.Error()
 		return
 	}
 	iface := ag.GetInterface()
 	iface.Check() //nolint:errcheck  (a served request proves the dispatcher runs and has installed its SIGHUP handler)
+	// the update hooks are part of the configuration in effect: the store path they are given (hooks.newstore events and
+	// the WHAWTY_AUTH_STORE a hook script really saw) may only ever be a base directory that was being served
+	hooksSeen := map[string]bool{}
+	checkHooks := func(id string, count bool) {
+		for _, e := range verifSnapshot() {
+			if e.Kind != "hooks.newstore" {
+				continue
+			}
+			if count {
+				R.Count("hook_store_switches", 1)
+			}
+			if e.Subject != A.Base && e.Subject != B.Base && !hooksSeen["ev:"+e.Subject] {
+				hooksSeen["ev:"+e.Subject] = true
+				R.Violate("c18:reload:hooks-switched-to-rejected-directory:"+filepath.Base(e.Subject), fmt.Sprintf("the update hooks were told to use %s, a directory of a reload that was rejected (the agent keeps serving %s or %s)", e.Subject, A.Base, B.Base), id, e)
+			}
+		}
+		for _, l := range c19ReadLog(hooksLog) {
+			f := strings.Split(l, "|")
+			got := f[len(f)-1]
+			if count {
+				R.Count("hook_runs_observed", 1)
+			}
+			if got != A.Base && got != B.Base && !hooksSeen["run:"+got] {
+				hooksSeen["run:"+got] = true
+				R.Violate("c18:reload:hook-ran-with-rejected-directory:"+filepath.Base(got), "a hook script ran with WHAWTY_AUTH_STORE="+got+", a directory of a rejected reload", id, l)
+			}
+		}
+	}
 	// background clients: every request must be answered
 	var stop int32
 	var answered, bgErrors int64
@@ -157,6 +189,7 @@ func TestVerifC18Reload(t *testing.T) {
 	nprobe := 0
 	expectState := func(id string, want c18Conf, kind string) {
 		iface.Check() //nolint:errcheck  (behind the reload in the dispatcher)
+		defer checkHooks(id, false)
 		got, detail := c18Which(R, id, iface, confs, &nprobe)
 		R.Case(current.Name+"|"+kind, true)
 		R.Count("reloads", 1)
@@ -314,6 +347,8 @@ func TestVerifC18Reload(t *testing.T) {
 	expectState("burst", current, "good:after-signal-burst")
 	atomic.StoreInt32(&stop, 1)
 	wg.Wait()
+	time.Sleep(200 * time.Millisecond)
+	checkHooks("final", true)
 	R.Count("background_requests_answered", int(atomic.LoadInt64(&answered)))
 	if n := atomic.LoadInt64(&bgErrors); n > 0 {
 		desc, blocked, where, raw := ovlDispatcherState(ovlDump(), 0)
